@@ -231,4 +231,16 @@ def reopen (d : Disk) : Outcome Node :=
   (replayState d).bind fun st =>
     .ok { mem := { lastApplied := d.lastApplied, membership := d.membership.getD {}, state := st }, disk := d }
 
+/-- the disk a crash leaves after exactly `n` completed writes of the history (all of it when the
+history issues fewer) — what the harness produces with the crash hook armed at `n` -/
+def crashDiskAt (nd : Node) : List Op → Nat → Disk
+  | [], _ => nd.disk
+  | op :: ops, n =>
+    if n < (writesOf nd op).length then applyWrites nd.disk ((writesOf nd op).take n)
+    else crashDiskAt (step nd op) ops (n - (writesOf nd op).length)
+
+/-- SPEC of recovery: the state machine of the committed log `G` up to the applied position `la` -/
+def specSM (G : List Entry) (la : Option LogId) : SM :=
+  applyEntriesT {} (G.filter (fun e => upto (oidx la) e.id.index))
+
 end Varpulis.RaftStore
